@@ -144,7 +144,7 @@ pub fn run(ctx: &Ctx) -> Report {
     let cases = ctx.share(ctx.scale(20_000, 300_000)) as u32;
     let strat = (
         prop::collection::vec((any::<u64>(), any::<bool>()), 0..5000),
-        0u8..7, // rank mode
+        0u8..9, // rank mode
         0u8..8, // capacity mode
         any::<u64>(),
     );
@@ -161,6 +161,10 @@ pub fn run(ctx: &Ctx) -> Report {
             }
             4 => input.iter_mut().for_each(|e| e.0 = u64::MAX - (e.0 % 2)),
             5 | 6 => hot_prefix(&mut input, *capr),
+            7 | 8 => input.iter_mut().for_each(|e| {
+                e.0 %= 7;
+                e.1 = false;
+            }),
             _ => {}
         }
         let cap = match cmode {
@@ -187,6 +191,7 @@ pub fn run(ctx: &Ctx) -> Report {
                 3 => "random:reverse-sorted",
                 4 => "random:ranks at u64::MAX",
                 5 | 6 => "random:hot prefix (the oldest entries are all accessed), slightly over capacity",
+                7 | 8 => "random:nothing accessed, 7 distinct ranks (ties at the cutoff), slightly over capacity",
                 _ => "random:full-width ranks",
             });
             if n >= 1000 {
@@ -209,6 +214,10 @@ pub fn run(ctx: &Ctx) -> Report {
             }
             4 => input.iter_mut().for_each(|e| e.0 = u64::MAX - (e.0 % 2)),
             5 | 6 => hot_prefix(&mut input, capr),
+            7 | 8 => input.iter_mut().for_each(|e| {
+                e.0 %= 7;
+                e.1 = false;
+            }),
             _ => {}
         }
         let cap = match cmode {
